@@ -253,6 +253,16 @@ pub fn cases(thorough: bool) -> Vec<Case> {
                 }
             }
         }
+        // one form that spans n lines (one operand per line) with the fault on its last line, and
+        // one line of n operands with the fault at its end
+        for n in 1..=far {
+            if n > 20 && (n + seen_kinds.len()) % 3 != 0 {
+                continue;
+            }
+            let tall = format!("(list {}{})", "1 ".repeat(n), PH);
+            out.push(Case { kind, fault: f, ctx: "tall-form".to_string(), pre: 1, defs: vec![], form: tall.clone(), layout: vec![1; n + 1] });
+            out.push(Case { kind, fault: f, ctx: "wide-form".to_string(), pre: 1, defs: vec![], form: tall, layout: vec![0; n + 1] });
+        }
     }
     out
 }
@@ -405,7 +415,7 @@ pub fn run(ctx: &Ctx) -> i32 {
             exhaustive: true,
             rule: format!("every fault expression of C08 ({}) x every calling context and every derived-form wrapper ({} wrappers, at top level and inside a procedure) x every assignment of {:?} to the first gaps of the failing form x 0-2 preceding forms (rotating); the whole text is evaluated at once and the reported position is compared with the extents recorded by the renderer; distinct = distinct (context, error kind, verdict pattern)", c08::faults().len(), WRAPPERS.len(), GAPS),
             bounds: json!({"cases": total, "layout_gaps": if ctx.thorough() { 4 } else { 3 }}),
-            assumptions: vec!["'at' tolerates the implementation's end-of-token convention: start <= position <= end + 1".into()],
+            assumptions: vec!["'at' tolerates the implementation's end-of-token convention: start <= position <= end + 1; scale ladders: the failing form on every line / column up to 300 (thorough 700) after empty lines, blanks, code and long comment lines; one form spanning n lines / one line of n operands with the fault at its end".into()],
             wall_s: ctx.elapsed(),
             extra: json!({}),
         },
